@@ -137,7 +137,22 @@ def run_time(ctx):
         ctx.violation("time-sliding", "slide-test", "emission is not decided by comparing event_time with last_emit + slide_interval (%s)" % emit, site=h["span"])
     evict = [r for r in rels if "cutoff" in r[1] + r[2]]
     cut = [s for s in H.lets(h["body"]) if s["pat"]["k"] == "bind" and s["pat"]["name"] == "cutoff"]
-    if evict and cut and norm(cut[0]["init"]) == "(event_time - window_size)":
+    # direction of the eviction predicate: a `position`/`find` closure must describe the first RETAINED event
+    # (timestamp >= cutoff), a `partition_point`/`take_while` closure the EXPIRED prefix (timestamp < cutoff)
+    wrong_dir = None
+    for mc in H.walk(h["body"]):
+        if mc.get("k") == "mcall" and mc["method"] in ("position", "find", "partition_point", "take_while", "skip_while"):
+            for r in (canon_rel(x) for a in mc["args"] for x in H.walk(a) if x.get("k") == "bin" and x["op"] in ("Ge", "Gt", "Le", "Lt")):
+                if "cutoff" not in r[1] + r[2]:
+                    continue
+                retained_pred = "cutoff" in r[2]  # (>=|>, timestamp, cutoff)
+                want_retained = mc["method"] in ("position", "find")
+                if retained_pred != want_retained:
+                    wrong_dir = (mc["method"], r)
+    if wrong_dir:
+        ctx.violation("time-sliding", "cutoff", "%s(..) over the buffer tests `%s %s %s`: the predicate selects the wrong side of the cutoff (events inside the window are evicted / expired ones kept)" % (
+            wrong_dir[0], wrong_dir[1][1], wrong_dir[1][0], wrong_dir[1][2]), site=h["span"])
+    elif evict and cut and norm(cut[0]["init"]) == "(event_time - window_size)":
         ctx.ok("time-sliding", "cutoff", "retain iff %s %s %s, cutoff = event_time - window_size" % (evict[0][1], evict[0][0], evict[0][2]))
     else:
         ctx.violation("time-sliding", "cutoff", "eviction cutoff is not event_time - window_size compared with the events' timestamps", site=h["span"])
